@@ -1,5 +1,6 @@
 /-
-  C07 — the chunked byte source refines the unchunked one (helper lemmas).
+  C07 — the chunked byte source refines the unchunked one (helper lemmas):
+  the refinement relation, `fill`, `peek`, `peekTwo`.
 -/
 import ShVerif.Model.C07
 import ShVerif.Proofs.L2ByteSrc
@@ -8,39 +9,40 @@ open ShVerif ShVerif.L2
 set_option linter.unusedSimpArgs false
 
 /-- The refinement relation between a state of the chunked byte source (whatever its schedule,
-    with `io.EOF` delivered by a separate read) and a state of the unchunked machine. -/
+    `io.EOF` with or after the last bytes) and a state of the unchunked machine. -/
 structure R (s : St) (a : LSt) : Prop where
   blen_eq : s.blen = s.back.length + s.front.length
   cursor : s.bsp = s.back.length ∨ (s.front = [] ∧ s.bsp = s.blen + 1 ∧ s.r = runeEOF)
-  eofW : s.eofWith = false
   errP : s.readErr = true → s.pending = []
   eofE : s.readEOF = true → s.readErr = true
   tot : s.front.length + s.pending.length ≤ s.total
+  stopLen : s.stopPat.length ≤ 4
   alive : a.err = none → a.rest = s.front ++ s.pending ∧ a.consumed = s.offs + s.bsp
   dead : a.err ≠ none → a.rest = [] ∧ s.front = [] ∧ s.bsp = s.blen + 1 ∧ s.r = runeEOF
-  eofR : a.err = none → s.r = runeEOF → s.readErr = true ∧ s.front = []
+  eofR : a.err = none → s.r = runeEOF → a.halted = false →
+    s.pending = [] ∧ s.front = [] ∧ s.bsp = s.blen + 1
   f_line : a.line = s.line
   f_col : a.col = s.col
   f_r : a.r = s.r
   f_w : a.w = s.w
-  f_readEOF : a.readEOF = s.readEOF
-  f_readErr : a.readErr = s.readErr
   f_lit : a.lit = s.lit
   f_openBq : a.openBq = s.openBq
   f_openBqDbl : a.openBqDbl = s.openBqDbl
   f_lastBqEsc : a.lastBqEsc = s.lastBqEsc
   f_err : a.err = s.err
   f_stop : a.stopPat = s.stopPat
-  bufS : a.buf.isSome = s.readErr
-  bufV : ∀ bl bp, a.buf = some (bl, bp) → s.blen = bl ∧ s.bsp = bp
   look : a.err = none → a.look ≤ s.front.length ∨ s.pending = []
   behind : ∀ l, a.behind = some l → s.bsp = s.back.length ∧ l <+: s.back
 
 set_option hygiene false in
 /-- split a hypothesis `h : R s a` into its fields (fixed names) -/
 macro "destruct_R " h:ident : tactic =>
-  `(tactic| obtain ⟨hblen, hcur, heofW, herrP, heofE, htot, halive, hdead, heofR, fl, fc, fr, fw, fre, frr,
-      flit, fob, fobd, flb, ferr, fstop, hbufS, hbufV, hlook, hbehind⟩ := $h)
+  `(tactic| obtain ⟨hblen, hcur, herrP, heofE, htot, hstopLen, halive, hdead, heofR, fl, fc, fr, fw,
+      flit, fob, fobd, flb, ferr, fstop, hlook, hbehind⟩ := $h)
+
+/-- the workhorse for goals `R s' a'` where both sides are field updates -/
+macro "r_close" : tactic =>
+  `(tactic| (constructor <;> simp_all <;> (try assumption) <;> (try omega)))
 
 theorem R.bsp_le {s a} (h : R s a) (hr : s.r ≠ runeEOF) : s.bsp ≤ s.blen := by
   rcases h.cursor with hc | ⟨_, _, hc⟩
@@ -48,17 +50,15 @@ theorem R.bsp_le {s a} (h : R s a) (hr : s.r ≠ runeEOF) : s.bsp ≤ s.blen := 
   · exact absurd hc hr
 
 /-- `fill()` when the reader has nothing more to give (or the lexer has stopped on an error):
-    nothing is read; the unchunked machine records that the end of input has been seen. -/
+    nothing is read and nothing observable changes. -/
 theorem fill_eof {s a} (h : R s a) (hb : a.behind = none)
     (hp : s.pending = [] ∨ a.err ≠ none) :
-    ∃ s', s.fill = .ok (0, s') ∧ R s' a.fillE ∧ s'.front = s.front ∧ s'.pending = s.pending := by
-  unfold St.fill LSt.fillE
+    ∃ s', s.fill = .ok (0, s') ∧ R s' a ∧ s'.front = s.front ∧ s'.pending = s.pending := by
+  unfold St.fill
   by_cases h1 : (s.readEOF || s.r == runeEOF) = true
-  · have h1' : (a.readEOF || a.r == runeEOF) = true := by rw [h.f_readEOF, h.f_r]; exact h1
-    simp only [h1, h1', if_true]
+  · simp only [h1, if_true]
     exact ⟨s, rfl, h, rfl, rfl⟩
-  · have h1' : ¬ (a.readEOF || a.r == runeEOF) = true := by rw [h.f_readEOF, h.f_r]; exact h1
-    simp only [h1, h1']
+  · simp only [h1]
     have hr : s.r ≠ runeEOF := by
       intro hh; apply h1; simp [hh]
     have hal : a.err = none := by
@@ -73,45 +73,42 @@ theorem fill_eof {s a} (h : R s a) (hb : a.behind = none)
     have hgt : ¬ s.bsp > s.blen := by omega
     simp only [hgt, if_false]
     by_cases h2 : s.readErr = true
-    · have h2' : a.readErr = true := by rw [h.f_readErr]; exact h2
-      simp only [h2, h2', if_true]
+    · simp only [h2, if_true]
       refine ⟨_, rfl, ?_, rfl, rfl⟩
       have ha := h.alive hal
       destruct_R h
-      constructor <;> simp_all
-    · have h2' : ¬ a.readErr = true := by rw [h.f_readErr]; exact h2
-      obtain ⟨sc, hsc⟩ := readLoop_nil (bufSize - s.front.length) s.eofWith s.sched
-      simp only [h2, h2', if_false, hpend, hsc, bind_ok, pure_eq_ok]
+      r_close
+    · obtain ⟨sc, hsc⟩ := readLoop_nil (bufSize - s.front.length) s.eofWith s.sched
+      simp only [h2, hpend, hsc, bind_ok, pure_eq_ok]
       refine ⟨_, rfl, ?_, by simp, by simp [hpend]⟩
       have ha := h.alive hal
       destruct_R h
-      constructor <;> simp_all
+      r_close
 
 /-- `fill()` while the reader still has bytes: at least one byte is appended to the buffer and the
     unchunked state is unaffected. -/
 theorem fill_data {s a} (h : R s a) (hb : a.behind = none) (hal : a.err = none)
-    (hp : s.pending ≠ []) (hlen : s.front.length < bufSize) :
+    (hh : a.halted = false) (hp : s.pending ≠ []) (hlen : s.front.length < bufSize) :
     ∃ n s', s.fill = .ok (n, s') ∧ 0 < n ∧ R s' a ∧
       ∃ chunk, chunk ≠ [] ∧ s'.front = s.front ++ chunk ∧ chunk ++ s'.pending = s.pending := by
   have hrerr : s.readErr = false := by
-    cases hh : s.readErr with
+    cases hx : s.readErr with
     | false => rfl
-    | true => exact absurd (h.errP hh) hp
+    | true => exact absurd (h.errP hx) hp
   have hreof : s.readEOF = false := by
-    cases hh : s.readEOF with
+    cases hx : s.readEOF with
     | false => rfl
-    | true => have := h.eofE hh; simp [hrerr] at this
+    | true => have := h.eofE hx; simp [hrerr] at this
   have hr : s.r ≠ runeEOF := by
-    intro hh
-    have := (h.eofR hal hh).1
-    simp [hrerr] at this
+    intro hx
+    exact hp (h.eofR hal hx hh).1
   have hle := h.bsp_le hr
-  obtain ⟨chunk, rest, sc, hrl, hne, happ, hcl⟩ :=
-    readLoop_data (bufSize - s.front.length) (by omega) s.pending hp s.sched
+  obtain ⟨chunk, e, rest, sc, hrl, hne, happ, hcl, he⟩ :=
+    readLoop_data (bufSize - s.front.length) (by omega) s.eofWith s.pending hp s.sched
   unfold St.fill
   have h1 : ¬ (s.readEOF || s.r == runeEOF) = true := by simp [hreof, hr]
   have hgt : ¬ s.bsp > s.blen := by omega
-  simp only [h1, hgt, if_false, hrerr, h.eofW, hrl, bind_ok, pure_eq_ok]
+  simp only [h1, hgt, if_false, hrerr, hrl, bind_ok, pure_eq_ok]
   refine ⟨_, _, rfl, ?_, ?_, chunk, hne, rfl, happ⟩
   · cases chunk with
     | nil => exact absurd rfl hne
@@ -120,8 +117,7 @@ theorem fill_data {s a} (h : R s a) (hb : a.behind = none) (hal : a.err = none)
     have hlen2 : s.front.length + s.pending.length = (s.front ++ chunk).length + rest.length := by
       rw [← happ]; simp; omega
     destruct_R h
-    constructor <;> simp_all
-    left; omega
+    constructor <;> simp_all <;> (try assumption) <;> (try omega)
 
 theorem R.forget {s a} (h : R s a) : R s a.forget := by
   unfold LSt.forget
@@ -132,23 +128,14 @@ theorem R.forget {s a} (h : R s a) : R s a.forget := by
 @[simp] theorem forget_rest (a : LSt) : a.forget.rest = a.rest := rfl
 @[simp] theorem forget_err (a : LSt) : a.forget.err = a.err := rfl
 @[simp] theorem forget_look (a : LSt) : a.forget.look = a.look := rfl
-@[simp] theorem forget_ok (a : LSt) : a.forget.ok = a.ok := rfl
+@[simp] theorem forget_ok (a : LSt) : a.forget.ok = (a.ok && !a.halted) := rfl
 @[simp] theorem forget_r (a : LSt) : a.forget.r = a.r := rfl
+@[simp] theorem forget_halted (a : LSt) : a.forget.halted = a.halted := rfl
 
-@[simp] theorem fillE_rest (a : LSt) : a.fillE.rest = a.rest := by
-  unfold LSt.fillE; (repeat' split) <;> rfl
-@[simp] theorem fillE_err (a : LSt) : a.fillE.err = a.err := by
-  unfold LSt.fillE; (repeat' split) <;> rfl
-@[simp] theorem fillE_look (a : LSt) : a.fillE.look = a.look := by
-  unfold LSt.fillE; (repeat' split) <;> rfl
-@[simp] theorem fillE_behind (a : LSt) : a.fillE.behind = a.behind := by
-  unfold LSt.fillE; (repeat' split) <;> rfl
-@[simp] theorem fillE_ok (a : LSt) : a.fillE.ok = a.ok := by
-  unfold LSt.fillE; (repeat' split) <;> rfl
-@[simp] theorem fillE_r (a : LSt) : a.fillE.r = a.r := by
-  unfold LSt.fillE; (repeat' split) <;> rfl
-@[simp] theorem fillE_openBq (a : LSt) : a.fillE.openBq = a.openBq := by
-  unfold LSt.fillE; (repeat' split) <;> rfl
+theorem forget_ok_halted {a : LSt} (h : a.forget.ok = true) : a.halted = false := by
+  simp at h; exact h.2
+theorem forget_ok_le {a : LSt} (h : a.forget.ok = true) : a.ok = true := by
+  simp at h; exact h.1
 
 theorem R.head {s a b f} (h : R s a) (hf : s.front = b :: f) :
     a.err = none ∧ a.rest = b :: (f ++ s.pending) := by
@@ -178,10 +165,14 @@ theorem R.setLook {s a} (h : R s a) (k : Nat)
   destruct_R h
   constructor <;> simp_all <;> assumption
 
+theorem R.setOk {s a} (h : R s a) (v : Bool) : R s { a with ok := v } := by
+  destruct_R h
+  constructor <;> simp_all <;> assumption
+
 /-- the common prologue of `peek`, `zshNumRange` and `rune`: with an empty buffer, `fill()`. -/
-theorem ensure1 {s a} (h : R s a) (hb : a.behind = none) (hf : s.front = []) :
-    ∃ n s', s.fill = .ok (n, s') ∧ R s' (if a.rest.isEmpty then a.fillE else a) ∧
-      (n = 0 ↔ a.rest = []) ∧ (a.rest ≠ [] → s'.front ≠ []) := by
+theorem ensure1 {s a} (h : R s a) (hb : a.behind = none) (hh : a.halted = false) (hf : s.front = []) :
+    ∃ n s', s.fill = .ok (n, s') ∧ R s' a ∧
+      (n = 0 ↔ a.rest = []) ∧ (a.rest ≠ [] → s'.front ≠ []) ∧ (a.rest = [] → s'.front = []) := by
   by_cases hd : a.err ≠ none ∨ s.pending = []
   · have hrest : a.rest = [] := by
       rcases hd with hd | hd
@@ -189,103 +180,23 @@ theorem ensure1 {s a} (h : R s a) (hb : a.behind = none) (hf : s.front = []) :
       · cases he : a.err with
         | some e => exact (h.dead (by simp [he])).1
         | none => rw [(h.alive he).1, hf, hd]; rfl
-    obtain ⟨s', h1, h2, _, _⟩ := fill_eof h hb (by rcases hd with hd | hd; exact Or.inr hd; exact Or.inl hd)
-    exact ⟨0, s', h1, by simpa [hrest] using h2, by simp [hrest], fun hh => absurd hrest hh⟩
+    obtain ⟨s', h1, h2, h3, _⟩ := fill_eof h hb (by rcases hd with hd | hd; exact Or.inr hd; exact Or.inl hd)
+    exact ⟨0, s', h1, h2, by simp [hrest], fun hx => absurd hrest hx, fun _ => by rw [h3, hf]⟩
   · have hal : a.err = none := by
       cases he : a.err with
       | none => rfl
       | some e => exact absurd (Or.inl (by simp [he])) hd
-    have hp : s.pending ≠ [] := fun hh => hd (Or.inr hh)
-    obtain ⟨n, s', h1, hn, h2, chunk, hne, hfr, happ⟩ := fill_data h hb hal hp (by simp [hf, bufSize])
+    have hp : s.pending ≠ [] := fun hx => hd (Or.inr hx)
+    obtain ⟨n, s', h1, hn, h2, chunk, hne, hfr, happ⟩ := fill_data h hb hal hh hp (by simp [hf, bufSize])
     have hrest : a.rest ≠ [] := by
       rw [(h.alive hal).1, hf]; simpa using hp
-    refine ⟨n, s', h1, ?_, ?_, ?_⟩
-    · cases hr : a.rest with
-      | nil => exact absurd hr hrest
-      | cons x xs => simpa using h2
+    refine ⟨n, s', h1, h2, ?_, ?_, fun hx => absurd hx hrest⟩
     · constructor
       · intro h0; omega
       · intro h0; exact absurd h0 hrest
     · intro _
       rw [hfr, hf]
       simpa using hne
-
-/-- `peek` on an `R`-related pair, for a spec state whose `behind` is already forgotten -/
-theorem peek_refines0 {s a} (h : R s a) (hb : a.behind = none) :
-    ∃ s', s.peek = .ok ((match a.peekEff0.rest with | [] => runeSelf | b :: _ => b.toNat), s')
-      ∧ R s' a.peekEff0 := by
-  unfold St.peek LSt.peekEff0
-  cases hf : s.front with
-  | cons b f =>
-    obtain ⟨hal, hrest⟩ := h.head hf
-    refine ⟨s, by simp [hf, hrest], ?_⟩
-    simp only [hrest, List.isEmpty_cons]
-    apply h.setLook
-    intro _
-    rcases h.look hal with hl | hl
-    · left; simp [hf] at hl ⊢; omega
-    · right; exact hl
-  | nil =>
-    obtain ⟨n, s', h1, h2, h3, h4⟩ := ensure1 h hb hf
-    simp only [List.isEmpty_nil, if_true, h1, map_ok, bind_ok]
-    cases hr : a.rest with
-    | nil =>
-      have he : a.rest.isEmpty = true := by simp [hr]
-      simp only [he, if_true] at h2 ⊢
-      have hf' : s'.front = [] := h2.front_nil (by simp [hr])
-      refine ⟨s', by simp [hf', hr], ?_⟩
-      apply h2.setLook
-      intro hal
-      right
-      exact h2.pending_nil hal (by simp [hr])
-    | cons x xs =>
-      have he : a.rest.isEmpty = false := by simp [hr]
-      simp only [he, Bool.false_eq_true, if_false] at h2 ⊢
-      have hne : s'.front ≠ [] := h4 (by simp [hr])
-      cases hf' : s'.front with
-      | nil => exact absurd hf' hne
-      | cons b f =>
-        obtain ⟨hal, hrest⟩ := h2.head hf'
-        rw [hr] at hrest
-        injection hrest with hx _
-        refine ⟨s', by simp [hr, hx], ?_⟩
-        apply h2.setLook
-        intro _
-        rcases h2.look hal with hl | hl
-        · left; simp [hf'] at hl ⊢; omega
-        · right; exact hl
-
-theorem peek_eq (a : LSt) :
-    a.peek = ((match a.forget.peekEff0.rest with | [] => runeSelf | b :: _ => b.toNat), a.forget.peekEff0) := by
-  unfold LSt.peek LSt.peekEff
-  cases h : a.forget.peekEff0.rest <;> simp [h]
-
-theorem peek_refines {s a} (h : R s a) :
-    ∃ s', s.peek = .ok (a.peek.1, s') ∧ R s' a.peek.2 := by
-  obtain ⟨s', h1, h2⟩ := peek_refines0 h.forget (forget_behind a)
-  rw [peek_eq]
-  exact ⟨s', h1, h2⟩
-
-theorem R.setOk {s a} (h : R s a) (v : Bool) : R s { a with ok := v } := by
-  destruct_R h
-  constructor <;> simp_all <;> assumption
-
-theorem peekTwo_snd (a : LSt) : a.peekTwo.2.2 = a.forget.peekTwoEff0 := by
-  unfold LSt.peekTwo LSt.peekTwoEff
-  rcases h : a.forget.peekTwoEff0.rest with _ | ⟨b, _ | ⟨c, f⟩⟩ <;> simp [h]
-
-theorem peekTwoEff0_two {a : LSt} {b c t} (h : a.rest = b :: c :: t) :
-    a.peekTwoEff0 = { a with look := max a.look 2, ok := a.ok && (decide (a.look ≥ 1) || a.rest.isEmpty) } := by
-  simp [LSt.peekTwoEff0, h]
-
-theorem peekTwoEff0_short {a : LSt} (h : a.rest = [] ∨ ∃ b, a.rest = [b]) :
-    a.peekTwoEff0 = { a.fillE with look := max a.look 2, ok := a.ok && (decide (a.look ≥ 1) || a.rest.isEmpty) } := by
-  rcases h with h | ⟨b, h⟩ <;> simp [LSt.peekTwoEff0, h]
-
-theorem peekTwoEff0_ok (a : LSt) :
-    a.peekTwoEff0.ok = (a.ok && (decide (a.look ≥ 1) || a.rest.isEmpty)) := by
-  unfold LSt.peekTwoEff0
-  rcases a.rest with _ | ⟨b, _ | ⟨c, f⟩⟩ <;> simp
 
 def pk1 : List Byte → Nat
   | [] => runeSelf
@@ -294,96 +205,142 @@ def pk2 : List Byte → Nat
   | _ :: c :: _ => c.toNat
   | _ => runeSelf
 
-theorem peekTwoEff0_rest (a : LSt) : a.peekTwoEff0.rest = a.rest := by
+theorem peek_eq (a : LSt) : a.peek = (pk1 a.rest, a.forget.peekEff0) := by
+  unfold LSt.peek LSt.peekEff LSt.peekEff0
+  cases h : a.rest <;> simp [h, pk1]
+
+/-- `peek` on an `R`-related pair, for a spec state whose `behind` is already forgotten -/
+theorem peek_refines0 {s a} (h : R s a) (hb : a.behind = none) (hh : a.halted = false) :
+    ∃ s', s.peek = .ok (pk1 a.rest, s') ∧ R s' a.peekEff0 := by
+  unfold St.peek LSt.peekEff0
+  cases hf : s.front with
+  | cons b f =>
+    obtain ⟨hal, hrest⟩ := h.head hf
+    refine ⟨s, by simp [hf, hrest, pk1], ?_⟩
+    apply h.setLook
+    intro _
+    rcases h.look hal with hl | hl
+    · left; simp [hf] at hl ⊢; omega
+    · right; exact hl
+  | nil =>
+    obtain ⟨n, s', h1, h2, h3, h4, h5⟩ := ensure1 h hb hh hf
+    simp only [List.isEmpty_nil, if_true, h1, map_ok, bind_ok]
+    by_cases hr : a.rest = []
+    · have hf' : s'.front = [] := h5 hr
+      refine ⟨s', by simp [hf', pk1, hr], ?_⟩
+      apply h2.setLook
+      intro hal
+      right
+      exact h2.pending_nil hal hr
+    · have hne : s'.front ≠ [] := h4 hr
+      cases hf' : s'.front with
+      | nil => exact absurd hf' hne
+      | cons b f =>
+        obtain ⟨hal, hrest⟩ := h2.head hf'
+        refine ⟨s', by simp [hrest, pk1], ?_⟩
+        apply h2.setLook
+        intro _
+        rcases h2.look hal with hl | hl
+        · left; simp [hf'] at hl ⊢; omega
+        · right; exact hl
+
+theorem peek_step {s a} (h : R s a) (hh : a.halted = false) :
+    ∃ s', s.peek = .ok (pk1 a.rest, s') ∧ R s' a.forget.peekEff0 :=
+  peek_refines0 h.forget (forget_behind a) hh
+
+theorem peek_refines {s a} (h : R s a) (hok : a.peek.2.ok = true) :
+    ∃ s', s.peek = .ok (a.peek.1, s') ∧ R s' a.peek.2 := by
+  rw [peek_eq] at hok ⊢
+  have hh : a.halted = false := by
+    simp [LSt.peekEff0] at hok; exact hok.2
+  exact peek_step h hh
+
+theorem peekTwo_eq (a : LSt) : a.peekTwo = (pk1 a.rest, pk2 a.rest, a.forget.peekTwoEff0) := by
+  unfold LSt.peekTwo LSt.peekTwoEff LSt.peekTwoEff0
+  rcases h : a.rest with _ | ⟨b, _ | ⟨c, f⟩⟩ <;> simp [h, pk1, pk2]
+
+theorem peekTwoFill_refines (fuel : Nat) : ∀ {s a}, R s a → a.behind = none → a.halted = false →
+    3 ≤ s.front.length + fuel → 1 ≤ fuel →
+    ∃ s', St.peekTwoFill fuel s = .ok s' ∧ R s' a ∧
+      (2 ≤ s'.front.length ∨ s'.pending = [] ∨ a.err ≠ none) := by
+  induction fuel with
+  | zero => intro s a _ _ _ _ h1; omega
+  | succ fuel ih =>
+    intro s a h hb hh hlen _
+    unfold St.peekTwoFill
+    rcases hf : s.front with _ | ⟨b, _ | ⟨c, f⟩⟩
+    all_goals simp only
+    case cons.cons => exact ⟨s, rfl, h, Or.inl (by simp [hf])⟩
+    all_goals
+      by_cases hd : s.pending = [] ∨ a.err ≠ none
+      · obtain ⟨s', h1, h2, h3, h4⟩ := fill_eof h hb hd
+        refine ⟨s', by simp [h1], h2, ?_⟩
+        rcases hd with hd | hd
+        · right; left; rw [h4]; exact hd
+        · right; right; exact hd
+      · have hal : a.err = none := by
+          cases he : a.err with
+          | none => rfl
+          | some e => exact absurd (Or.inr (by simp [he])) hd
+        have hp : s.pending ≠ [] := fun hx => hd (Or.inl hx)
+        obtain ⟨n, s', h1, hn, h2, chunk, hne, hfr, happ⟩ :=
+          fill_data h hb hal hh hp (by simp [hf, bufSize])
+        have hgrow : s.front.length + 1 ≤ s'.front.length := by
+          rw [hfr]; cases chunk with
+          | nil => exact absurd rfl hne
+          | cons x t => simp
+        have hn0 : (n == 0) = false := by simp; omega
+        simp only [h1, bind_ok, hn0, Bool.false_eq_true, if_false]
+        simp [hf] at hlen hgrow
+        exact ih h2 hb hh (by omega) (by omega)
+
+theorem R.front_two {s a} (h : R s a) (hal : a.err = none) (h2 : 2 ≤ s.front.length ∨ s.pending = []) :
+    pk1 s.front = pk1 a.rest ∧ pk2 s.front = pk2 a.rest := by
+  have hr := (h.alive hal).1
+  rcases h2 with h2 | h2
+  · rcases hf : s.front with _ | ⟨b, _ | ⟨c, f⟩⟩
+    · simp [hf] at h2
+    · simp [hf] at h2
+    · rw [hr, hf]; simp [pk1, pk2]
+  · rw [hr, h2]; simp
+
+theorem peekTwo_step {s a} (h : R s a) (hh : a.halted = false) :
+    ∃ s', s.peekTwo = .ok (pk1 a.rest, pk2 a.rest, s') ∧ R s' a.forget.peekTwoEff0 := by
+  obtain ⟨s', h1, h2, h3⟩ := peekTwoFill_refines 3 h.forget (forget_behind a) hh (by omega) (by omega)
+  unfold St.peekTwo
+  simp only [h1, bind_ok]
+  have hvals : pk1 s'.front = pk1 a.rest ∧ pk2 s'.front = pk2 a.rest := by
+    cases he : a.err with
+    | some e =>
+      have hd := h2.dead (by simp [he])
+      rw [hd.2.1]
+      have : a.rest = [] := hd.1
+      rw [this]; exact ⟨rfl, rfl⟩
+    | none =>
+      have := h2.front_two (by simpa using he) (by
+        rcases h3 with h3 | h3 | h3
+        · exact Or.inl h3
+        · exact Or.inr h3
+        · exact absurd (by simpa using he) h3)
+      simpa using this
+  refine ⟨s', ?_, ?_⟩
+  · rw [← hvals.1, ← hvals.2]
+    rcases hf : s'.front with _ | ⟨b, _ | ⟨c, f⟩⟩ <;> rfl
   unfold LSt.peekTwoEff0
-  rcases h : a.rest with _ | ⟨b, _ | ⟨c, f⟩⟩ <;> simp [h]
-
-theorem peekTwo_1 (a : LSt) : a.peekTwo.1 = pk1 a.rest := by
-  have := peekTwoEff0_rest a.forget
-  unfold LSt.peekTwo LSt.peekTwoEff
-  rcases h : a.rest with _ | ⟨b, _ | ⟨c, f⟩⟩ <;> simp_all [pk1]
-
-theorem peekTwo_2 (a : LSt) : a.peekTwo.2.1 = pk2 a.rest := by
-  have := peekTwoEff0_rest a.forget
-  unfold LSt.peekTwo LSt.peekTwoEff
-  rcases h : a.rest with _ | ⟨b, _ | ⟨c, f⟩⟩ <;> simp_all [pk2]
-
-theorem R.setLookOk {s a} (h : R s a) (k : Nat) (v : Bool)
-    (hk : a.err = none → k ≤ s.front.length ∨ s.pending = []) : R s { a with look := k, ok := v } := by
-  destruct_R h
-  constructor <;> simp_all <;> assumption
+  apply h2.setLook
+  intro hal
+  rcases h3 with h3 | h3 | h3
+  · rcases h2.look hal with hl | hl
+    · left; simp at hl ⊢; omega
+    · right; exact hl
+  · right; exact h3
+  · exact absurd (by simpa using hal) h3
 
 theorem peekTwo_refines {s a} (h : R s a) (hok : a.peekTwo.2.2.ok = true) :
     ∃ s', s.peekTwo = .ok (a.peekTwo.1, a.peekTwo.2.1, s') ∧ R s' a.peekTwo.2.2 := by
-  have h0 := h.forget
-  have hb := forget_behind a
-  rw [peekTwo_snd, peekTwoEff0_ok] at hok
-  rw [peekTwo_1, peekTwo_2, peekTwo_snd, ← forget_rest a]
-  generalize a.forget = a0 at h0 hb hok ⊢
-  have hok2 : a0.look ≥ 1 ∨ a0.rest = [] := by
-    simp at hok
-    rcases hok.2 with h1 | h1
-    · left; exact h1
-    · right; exact h1
-  unfold St.peekTwo
-  rcases hf : s.front with _ | ⟨b, _ | ⟨c, f⟩⟩
-  · -- empty buffer: inside the protocol only at the end of the input
-    have hrest : a0.rest = [] := by
-      cases he : a0.err with
-      | some e => exact (h0.dead (by simp [he])).1
-      | none =>
-        rcases hok2 with h1 | h1
-        · rcases h0.look he with h2 | h2
-          · simp [hf] at h2; omega
-          · rw [(h0.alive he).1, hf, h2]; rfl
-        · exact h1
-    have hp : s.pending = [] ∨ a0.err ≠ none := by
-      cases he : a0.err with
-      | some e => right; simp
-      | none => left; exact h0.pending_nil he hrest
-    obtain ⟨s', h1, h2, h3, h4⟩ := fill_eof h0 hb hp
-    rw [hf] at h3
-    rw [peekTwoEff0_short (Or.inl hrest)]
-    refine ⟨s', by simp [h1, h3, hrest, pk1, pk2], ?_⟩
-    apply h2.setLookOk
-    intro he
-    right
-    exact h2.pending_nil he (by simpa using hrest)
-  · -- one byte buffered
-    obtain ⟨hal, hrest⟩ := h0.head hf
-    by_cases hp : s.pending = []
-    · obtain ⟨s', h1, h2, h3, h4⟩ := fill_eof h0 hb (Or.inl hp)
-      rw [hf] at h3
-      have hrest' : a0.rest = [b] := by rw [hrest, hp]; rfl
-      rw [peekTwoEff0_short (Or.inr ⟨b, hrest'⟩)]
-      refine ⟨s', by simp [h1, h3, hrest', pk1, pk2], ?_⟩
-      apply h2.setLookOk
-      intro he
-      right
-      rw [h4, hp]
-    · obtain ⟨n, s', h1, hn, h2, chunk, hne, hfr, happ⟩ :=
-        fill_data h0 hb hal hp (by simp [hf, bufSize])
-      rcases chunk with _ | ⟨c, ch⟩
-      · exact absurd rfl hne
-      · rw [hf] at hfr
-        have hrest' : a0.rest = b :: c :: (ch ++ s'.pending) := by
-          rw [hrest, ← happ]; rfl
-        rw [peekTwoEff0_two hrest']
-        refine ⟨s', by simp [h1, hfr, hrest', pk1, pk2], ?_⟩
-        apply h2.setLookOk
-        intro he
-        rcases h2.look he with hl | hl
-        · left; simp [hfr] at hl ⊢; omega
-        · right; exact hl
-  · -- two bytes buffered: no fill
-    obtain ⟨hal, hrest⟩ := h0.head hf
-    have hrest' : a0.rest = b :: c :: (f ++ s.pending) := hrest
-    rw [peekTwoEff0_two hrest']
-    refine ⟨s, by simp [hf, hrest', pk1, pk2], ?_⟩
-    apply h0.setLookOk
-    intro he
-    rcases h0.look he with hl | hl
-    · left; simp [hf] at hl ⊢; omega
-    · right; exact hl
+  rw [peekTwo_eq] at hok ⊢
+  have hh : a.halted = false := by
+    simp [LSt.peekTwoEff0] at hok; exact hok.2
+  exact peekTwo_step h hh
 
 end ShVerif.C07
